@@ -33,8 +33,8 @@ EXTENDS Naturals, Sequences, FiniteSets, TLC, Json, IOUtils, SequencesExt
 CONSTANTS Alphabet,     \* set of lines (strings without tabs and line ends)
           MaxLines
 
-VARIABLES doc, pos, st
-vars == <<doc, pos, st>>
+VARIABLES doc, st          \* the lines read so far and the parser state after them: every reachable state is a document with its parse
+vars == <<doc, st>>
 
 ---------------------------------------------------------------------------
 (* strings *)
@@ -145,6 +145,7 @@ MatchFrom(s, k, r, rests) ==
 
 (* Classes of input on which the implementation under test is known to deviate (known_findings.json); the reader tags the
    documents so that the harness can tell a recorded finding from a new one.  They do not change the parse. *)
+StartsBlockWhenDeindented(t) == IsQuoteMarker(t) \/ IsAtx(t) \/ IsFenceOpen(t) \/ IsHr(t) \/ IsMarker(t, FALSE) \/ IsSetextUnderline(t)
 Indented4(r) == LeadSp(r) >= 4 /\ ~IsBlank(r)
 UnmatchedKinds(s, n) == {s.open[k].kind : k \in (n + 1)..Len(s.open)}
 
@@ -167,7 +168,8 @@ TextLine(s, n, r, pm, L, started) ==
     IF ~started /\ n < Len(s.open) /\ ~IsBlank(r) /\ s.tip.k = "para"
     THEN [AddLineTo(s, s.tip.node, LStrip(r), L) EXCEPT !.tags = s.tags \cup {"lazy"}
               \cup (IF \E k \in (n + 1)..Len(s.open) : s.open[k].kind = "quote" /\ s.open[k].ind4 THEN {"lazy-after-indented-quote-content"} ELSE {})
-              \cup (IF IsSetextUnderline(r) /\ "item" \in UnmatchedKinds(s, n) THEN {"lazy-line-looks-like-setext-underline"} ELSE {})]
+              \cup (IF IsSetextUnderline(r) /\ "item" \in UnmatchedKinds(s, n) THEN {"lazy-line-looks-like-setext-underline"} ELSE {})
+              \cup (IF LeadSp(r) >= 4 /\ StartsBlockWhenDeindented(LStrip(r)) THEN {"lazy-indented-line-looks-like-block-start"} ELSE {})]
     ELSE IF pm THEN AddLineTo(s, s.tip.node, LStrip(r), L)
     ELSE LET s0 == IF ~started /\ n < Len(s.open) /\ ~IsBlank(r) THEN [s EXCEPT !.tags = s.tags \cup {"lazy-after-nonpara"}] ELSE s      \* (tip is no paragraph)
              s1 == IF started THEN s0 ELSE CloseTo(s0, n) IN
@@ -203,8 +205,16 @@ Starts(s, n, r, pm, L, started) ==
                        [AddNode(c1, Node("List", TopNode(c1), L, 0, << >>, [mtype |-> m.mtype, ordered |-> m.ordered, start |-> m.start])) EXCEPT
                            !.open = Append(c1.open, [kind |-> "list", node |-> id, w |-> 0, mtype |-> m.mtype, ind4 |-> FALSE])]
             iid == NewId(s1)
+            (* a marker that could not interrupt a paragraph (empty item, ordered list not starting with 1) on a line that leaves its
+               containers: the reference reading starts a list here (the restriction is applied only when the paragraph itself was
+               reached); read declaratively ("a line that would otherwise count as paragraph continuation text") the line is a lazy
+               continuation line when the open leaf is a paragraph.  The specification text does not settle it: tagged, not judged.
+               When the open leaf is no paragraph nothing is lazy and the list starts outside the containers. *)
+            odd == ~started /\ n < Len(s.open) /\ ~IsMarker(r, TRUE)
+            tg == IF odd THEN (IF s.tip.k = "para" THEN {"unsettled-lazy-or-list"} ELSE {"lazy-after-nonpara"}) ELSE {}
             s2 == [AddNode(s1, Node("ListItem", TopNode(s1), L, 0, << >>, NoX)) EXCEPT
-                     !.open = Append(s1.open, [kind |-> "item", node |-> iid, w |-> m.w, mtype |-> m.mtype, ind4 |-> FALSE])] IN
+                     !.open = Append(s1.open, [kind |-> "item", node |-> iid, w |-> m.w, mtype |-> m.mtype, ind4 |-> FALSE]),
+                     !.tags = s1.tags \cup tg] IN
         Starts(s2, Len(s2.open), m.rest, FALSE, L, TRUE)
     ELSE IF LeadSp(r) >= 4 /\ s.tip.k # "para" /\ ~IsBlank(r) THEN
         LET s1 == PopList(closed) id == NewId(s1) IN
@@ -238,16 +248,16 @@ ParseFrom(s, d, k) == IF k > Len(d) THEN s ELSE ParseFrom(Line(s, d[k], k), d, k
 Parse(d) == ParseFrom(Empty, d, 1)
 
 ---------------------------------------------------------------------------
-(* the behaviour: one action per line *)
-Docs == UNION {[1..n -> Alphabet] : n \in 1..MaxLines}
+(* the behaviour: one action per line read.  Exhaustive exploration visits every line sequence up to MaxLines (sharded by the
+   first line over parallel TLC processes); simulation mode reads random longer documents *)
 Ordered == SetToSeq(Alphabet)
-ShardOk(d) == IOEnv.SHARD = "-" \/ d[1] = Ordered[ToNat(IOEnv.SHARD)]
+ShardOk(l) == IOEnv.SHARD = "-" \/ doc # << >> \/ l = Ordered[ToNat(IOEnv.SHARD)]
 
-Init == doc \in {d \in Docs : ShardOk(d)} /\ pos = 0 /\ st = Empty
-Next == /\ pos < Len(doc)
-        /\ st' = Line(st, doc[pos + 1], pos + 1)
-        /\ pos' = pos + 1
-        /\ UNCHANGED doc
+Init == doc = << >> /\ st = Empty
+Feed(l) == /\ Len(doc) < MaxLines /\ ShardOk(l)
+           /\ doc' = Append(doc, l)
+           /\ st' = Line(st, l, Len(doc) + 1)
+Next == \E l \in Alphabet : Feed(l)
 Spec == Init /\ [][Next]_vars
 
 ---------------------------------------------------------------------------
@@ -313,11 +323,11 @@ TypeOK ==
 Ordered2 == \A i, j \in DOMAIN st.nodes : (i < j /\ st.nodes[i].p = st.nodes[j].p) => st.nodes[i].ln <= st.nodes[j].ln
 Nested == \A i \in 2..Len(st.nodes) : st.nodes[st.nodes[i].p].ln <= st.nodes[i].ln
 
-(* design-level laws, checked on every document when it has been read (pos = Len(doc)) *)
+(* design-level laws, checked on every document *)
 Quoted(d) == [i \in DOMAIN d |-> "> " \o d[i]]
 (* C04 (block quotes): putting "> " before every line wraps the parse in one block quote *)
 QuoteLaw ==
-    pos = Len(doc) =>
+    doc # << >> =>
         LET q == Parse(Quoted(doc)) ks == Kids(q, 1) IN
         /\ Len(ks) = 1 /\ q.nodes[ks[1]].t = "Quote"
         /\ [k \in DOMAIN Kids(q, ks[1]) |-> Shape(q, Kids(q, ks[1])[k])] = [k \in DOMAIN Kids(st, 1) |-> Shape(st, Kids(st, 1)[k])]
@@ -327,7 +337,7 @@ QuoteLaw ==
    thematic break ("- " before "- -"), the coincidence the specification resolves the other way *)
 Itemised(d) == [i \in DOMAIN d |-> IF i = 1 THEN "- " \o d[1] ELSE IF IsBlank(d[i]) THEN d[i] ELSE "  " \o d[i]]
 ListLaw ==
-    (pos = Len(doc) /\ doc[1] # "" /\ Ch(doc[1], 1) # " " /\ ~IsHr("- " \o doc[1]) /\ ~IsBlank(doc[Len(doc)])) =>
+    (doc # << >> /\ doc[1] # "" /\ Ch(doc[1], 1) # " " /\ ~IsHr("- " \o doc[1]) /\ ~IsBlank(doc[Len(doc)])) =>
         LET q == Parse(Itemised(doc)) ks == Kids(q, 1) IN
         /\ Len(ks) = 1 /\ q.nodes[ks[1]].t = "List"
         /\ Len(Kids(q, ks[1])) = 1
@@ -337,13 +347,15 @@ ListLaw ==
 (* C05: if the document ends in a closed block, a blank line and more text parse independently *)
 EndsClosed(s) == LET ks == Kids(s, 1) IN ks # << >> /\ s.nodes[ks[Len(ks)]].t \in {"Paragraph", "Heading", "SetextHeading", "ThematicBreak", "Quote"}
 ConcatLaw ==
-    pos = Len(doc) =>
+    doc # << >> =>
         \A b \in Alphabet :
             (EndsClosed(st) /\ ~IsBlank(doc[Len(doc)])) =>
                 LET ab == Parse(doc \o <<"", b>>) pb == Parse(<<b>>) IN
                 [k \in DOMAIN Kids(ab, 1) |-> Shape(ab, Kids(ab, 1)[k])]
                     = [k \in DOMAIN Kids(st, 1) |-> Shape(st, Kids(st, 1)[k])] \o [k \in DOMAIN Kids(pb, 1) |-> Shape(pb, Kids(pb, 1)[k])]
 
-Export == pos = Len(doc) =>
+StateIsParse == st = Parse(doc)        \* the step-by-step reading is the function Parse (used by the laws on transformed documents)
+
+Export == doc # << >> =>
     PrintT(ToJson([src |-> Join(doc, "\n") \o "\n", html |-> HtmlOf(st, 1, FALSE), lines |-> LinesOf(st), defs |-> << >>, tags |-> st.tags, nblocks |-> Len(st.nodes) - 1]))
 =============================================================================
